@@ -1469,7 +1469,7 @@ def c09(tier):
 # C10 / C11: multitree columns (spec/MultiTree.tla)
 
 def mt_cfg(rc=False, ao=False, fine=False, shapes="ShapesSmall", maxids=5, maxcommits=4, maxlocks=0, maxdefers=2, maxcrash=0,
-           nt=2, nv=1, fix=("F18",), mut=(), gen=False, genlen=30, invariants=None, pipes=("flush", "enact", "clean"),
+           nt=2, nv=1, fix=("F18", "F20"), mut=(), gen=False, genlen=30, invariants=None, pipes=("flush", "enact", "clean"),
            rejw=6):
     b = lambda x: "TRUE" if x else "FALSE"
     sset = lambda xs: "{" + ", ".join('"%s"' % x for x in xs) + "}"
@@ -1511,8 +1511,9 @@ def mt_scenario(rep, which, variant=""):
                                                          "reused_node_under_lock": r.get("reused")})
     for v in r["violations"]:
         rep.violation("forced schedule %s: %s" % (which, v), {"kind": "mtree-scenario", "which": which, "variant": variant})
-    log("[scenario] %s variant=%r: reader lock %s, %d violations"
-        % (which, variant, "waited for the log worker" if r.get("lock_blocked") else "was granted", len(r["violations"])))
+    log("[scenario] %s variant=%r: %s, %d violations"
+        % (which, variant, ("reader lock " + ("waited for the log worker" if r.get("lock_blocked") else "was granted")) if which == "F18"
+           else "schedule forced", len(r["violations"])))
 
 
 def mt_record_and_validate(rep, variant, steps, seed, crash=0, nt=5, maxids=300, label=""):
@@ -1530,7 +1531,7 @@ def mt_record_and_validate(rep, variant, steps, seed, crash=0, nt=5, maxids=300,
     cfg = write_cfg("\n".join([
         "SPECIFICATION TraceSpec", "CONSTANTS", "  NT = %d" % nt, "  NX = 2", "  NV = 3", "  MaxIds = %d" % maxids,
         "  MaxCommits = 1000000", "  MaxLocks = 1000000", "  MaxCrash = 1000000", "  RcRoots = %s" % b("rc" in vs),
-        "  AO = %s" % b("ao" in vs), "  Fine = FALSE", '  Fix = {"F18"}', "  Mut = {}", "  NoHist = TRUE", "  Shapes <- NoShapes",
+        "  AO = %s" % b("ao" in vs), "  Fine = FALSE", '  Fix = {"F18", "F20"}', "  Mut = {}", "  NoHist = TRUE", "  Shapes <- NoShapes",
         "VIEW TraceView", "INVARIANTS TypeOK NoCorrupt ReaderStable IdealVisible XVisible FinalState",
         "POSTCONDITION TraceAccepted", "CHECK_DEADLOCK FALSE"]) + "\n")
     res = vcore.tlc_trace("MCTraceMultiTree.tla", cfg, out)
@@ -1554,6 +1555,48 @@ def mt_record_and_validate(rep, variant, steps, seed, crash=0, nt=5, maxids=300,
     log("[trace] %s variant=%r: %s events (%s commits, %s defers, %s crashes), matched %s/%s"
         % (label, variant, summary.get("events"), summary.get("commits"), summary.get("defers"), summary.get("crashes"),
            res.get("matched"), res.get("total")))
+    return res, summary
+
+
+def mt_live_and_validate(rep, variant, trees, seed, label=""):
+    """free-running threads (real background workers, writer, pruner, two readers): the recorded history must be a
+    behaviour of TraceMultiTreeLive.tla (lock acquisition and the deferral check are silent steps between events)"""
+    out = os.path.join(vcore.scratch(), "mtlive_%s.ndjson" % label)
+    args = {"out": out, "trees": trees, "seed": seed, "variant": variant}
+    p = vcore.pdbh("mtree-live", args, timeout=600)
+    summary = json.loads(p.stdout.strip().splitlines()[-1])
+    for pr in summary.get("problems", []):
+        rep.violation("driver: %s [variant=%s seed=%d]" % (pr, variant, seed), {"kind": "mtree-live", "args": args})
+    vs = variant.split(",")
+    b = lambda x: "TRUE" if x else "FALSE"
+    cfg = write_cfg("\n".join([
+        "SPECIFICATION TraceSpec", "CONSTANTS", "  NT = %d" % summary.get("nt", 6), "  NX = 1", "  NV = 1",
+        "  MaxIds = %d" % (int(summary.get("ids", 0)) + 20), "  MaxCommits = 1000000", "  MaxLocks = 1000000", "  MaxCrash = 0",
+        "  RcRoots = %s" % b("rc" in vs), "  AO = FALSE", "  Fine = TRUE", '  Fix = {"F18", "F20"}', "  Mut = {}", "  NoHist = TRUE",
+        "  Shapes <- NoShapes", "VIEW TraceView", "CONSTRAINT TrackL",
+        "INVARIANTS TypeOK NoCorrupt ReaderStable IdealVisible FinalState", "POSTCONDITION TraceAccepted",
+        "CHECK_DEADLOCK FALSE"]) + "\n")
+    res = vcore.tlc_trace("MCTraceMultiTreeLive.tla", cfg, out)
+    rep.traces += 1
+    rep.evaluations += 1
+    rep.transitions += res.get("generated", 0)
+    rep.extra["trace_events_validated"] = rep.extra.get("trace_events_validated", 0) + max(res.get("matched", 0), 0)
+    tc = rep.extra.setdefault("live_tree_trace_counts", {})
+    for k in ("events", "commits", "defers", "locks", "lock_misses", "ids"):
+        tc[k] = tc.get(k, 0) + int(summary.get(k, 0))
+    if not res["accepted"]:
+        first = " ".join(l.strip() for l in res["out"].splitlines() if "TRACE-FIRST-UNMATCHED" in l or "is violated" in l)
+        os.makedirs(vcore.REPLAYS, exist_ok=True)
+        keep = os.path.join(vcore.REPLAYS, "%s_mtlive_%s.ndjson" % (rep.prop, label))
+        import shutil
+        shutil.copyfile(out, keep)
+        rep.violation("history of the free-running threads rejected by the specification after %s of %s events: %s [variant=%s]"
+                      % (res.get("matched"), res.get("total"), first[:300], variant),
+                      {"kind": "mtree-live-trace", "trace": keep, "args": args})
+    rep.nontrivial.add("mtlive:%s:%d" % (label, seed))
+    log("[trace] %s live variant=%r: %s events (%s commits, %s defers, %s locks, %s misses), matched %s/%s"
+        % (label, variant, summary.get("events"), summary.get("commits"), summary.get("defers"), summary.get("locks"),
+           summary.get("lock_misses"), res.get("matched"), res.get("total")))
     return res, summary
 
 
@@ -1652,8 +1695,8 @@ def c11(tier):
         run_model(rep, mt_cfg(fine=True, shapes="ShapesSmall" if thorough else "ShapesTiny", maxids=5 if thorough else 4,
                               maxcommits=5 if thorough else 4, maxlocks=2, maxdefers=2, nt=2, nv=1, **kw),
                   "MC_MultiTree_fine_%s" % label, module="MCMultiTree.tla", timeout=3400)
-    for mut, fix in [(("no_defer",), ("F18",)), (("no_used",), ("F18",)), ((), ())]:
-        name = "_".join(mut) or "no_F18_repair"
+    for mut, fix in [(("no_defer",), ("F18", "F20")), (("no_used",), ("F18", "F20")), ((), ("F20",)), ((), ("F18",))]:
+        name = "_".join(mut) or ("no_F18_repair" if "F18" not in fix else "no_F20_repair")
         r = vcore.tlc_check("MCMultiTree.tla", write_cfg(mt_cfg(fine=True, shapes="ShapesTiny", maxids=4, maxcommits=4,
                                                                   maxlocks=1, mut=mut, fix=fix)), timeout=1800)
         rep.add_model(r, "MC_MultiTree_noguard_%s" % name)
@@ -1670,6 +1713,7 @@ def c11(tier):
                       {"kind": "model", "cfg": "MC_MultiTree_commit_order_strict", "tlc_tail": r["out"][-5000:]})
     for var in ["", "rc"] + (["direct", "rc,big"] if thorough else []):
         mt_scenario(rep, "F18", var)
+        mt_scenario(rep, "F20", var)
     variants = ["", "rc", "direct,pads"] + (["big", "rc,direct,pads", "direct,big"] if thorough else [])
     num = 100 if thorough else 12
     for j, var in enumerate(variants):
@@ -1688,4 +1732,7 @@ def c11(tier):
         tot_defers += summ.get("defers", 0)
     if tot_defers == 0:
         raise ToolError("no deferral in the recorded tree histories: vacuous")
+    # the real worker threads with a writer, a pruner and two reader threads
+    for j in range(10 if thorough else 4):
+        mt_live_and_validate(rep, "", 120 if thorough else 40, SEED * 47 + j, label="c11l%d" % j)
     return rep.finish()
